@@ -118,3 +118,24 @@ func TestHuntStageObject(t *testing.T) {
 		fmt.Println("VIOL", x.Rule, x.Shape, x.Msg)
 	}
 }
+
+// TestHuntHeterogeneousList (VERIF_HUNT=4): a workflow output holding a list of two differently shaped objects.
+func TestHuntHeterogeneousList(t *testing.T) {
+	if os.Getenv("VERIF_HUNT") != "4" {
+		t.Skip()
+	}
+	LoadSites(os.Getenv("VERIF_SITES"))
+	p := &ir.Program{Subs: map[string]*ir.Program{}}
+	p.Steps = []*ir.Step{{ID: "s0", Kind: "plugin", In: []ir.Field{ir.F("a", ir.Lit(int64(1)))}}}
+	p.Outputs = []ir.Output{{ID: "success", E: ir.Obj(ir.F("lst", &ir.Expr{K: "list", Items: []*ir.Expr{
+		ir.Obj(ir.F("p", ir.StepRef("s0", "outputs", "success", "a"))),
+		ir.Obj(ir.F("q", ir.Ref("input", "tag"))),
+	}}))}}
+	c := &Case{Property: "C08", Profile: "hunt", Class: "S1", Program: p, Doc: ir.Doc{"n": int64(1), "tag": "t", "flag": false}}
+	c.Policy = simrt.PolicySpec{Kind: "fifo", Seed: 1}
+	r := RunCase(t, c, false)
+	fmt.Println("PREPARE:", r.PrepareErr)
+	if len(r.Clients) > 0 {
+		fmt.Println(harness.JSON(r.Clients[0]))
+	}
+}
